@@ -223,6 +223,16 @@ func (r *Report) Finish(evidencePath string, known []KnownFinding, cmdline strin
 	if r.Level == "proof" && nviol > 0 {
 		cov["discharged"] = discharged
 	}
+	nn := func(x []string) []string {
+		if x == nil {
+			return []string{}
+		}
+		return x
+	}
+	cov["trusted_base"] = nn(r.Trusted)
+	cov["not_covered"] = nn(r.NotCovered)
+	cov["informational"] = nn(r.Info)
+	r.Assume = nn(r.Assume)
 	ev := map[string]any{
 		"property_id": r.Prop,
 		"tier":        r.Tier,
